@@ -12,6 +12,8 @@ UNITS = {
   'bc_nowalk': dict(unit({'vp_thr_bind': ['a'], 'vp_thr_cancel': ['b']}), cut=CUT + ['11thread_data26propagate_task_group_state']),
   'hs': dict(unit({'vp_thr_bindimpl': ['a'], 'vp_thr_cancel': ['b']}, unroll=1), cut=CUT + ['11thread_data26propagate_task_group_state']),
   'hs_tso': tso(dict(unit({'vp_thr_bindimpl': ['a'], 'vp_thr_cancel': ['b']}, unroll=1), cut=CUT + ['11thread_data26propagate_task_group_state'])),
+  'seq': dict(wrapper='w_ctx.cpp', mode='seq', cxxflags=CXX, exceptions=True, cut=CUT, prune=True),
+  'rb': unit({'vp_thr_recancel': ['a'], 'vp_thr_bind': ['b']}),
   'bb': unit({'vp_thr_bind': ['a', 'b']}),
   'dc': unit({'vp_thr_destroy': ['a'], 'vp_thr_cancel': ['b']}),
   'cc': unit({'vp_thr_cancel': ['a', 'b']}),
@@ -53,6 +55,14 @@ HARNESSES = [
   dict(name='bind_slowpath', unit='bc', defines={'ROUNDS': 1, 'MODE': 1, 'WITNESS_SLOW': 1, 'TARGET': 1, 'ORDER': 0}, scenarios=[sc(REG_FIRST=0, BIND_T=1)],
        desc='reachability + correctness of the repaired path: restricted to executions in which the binder was seen parked on the_context_state_propagation_mutex (epoch mismatch branch of bind_to_impl while a propagation holds the mutex); the witness proves such executions exist in the encoding.' + ORACLE,
        bounds=bnd(), **dict(COMMON, timeout=1200)),
+  dict(name='reset_reuse', unit='seq', harness='h_reset.c', cbmc=['--unwind', '16'], native_cflags=['-fno-sanitize=null'], timeout=600, mem_gb=8,
+       scenarios=[sc(SEQ=1, REG_FIRST=0, BIND_T=1), sc(SEQ=1, REG_FIRST=1, BIND_T=0, S_T=1), sc(SEQ=2, REG_FIRST=0, BIND_T=1), sc(SEQ=2, REG_FIRST=1, BIND_T=0)],
+       desc='sequential reuse of a context that still has a bound child, through the public API: SEQ 1 = cancel P (C cancelled, second cancel false), exception holder stored, reset P (exactly P\'s flag and exception cleared; hint, links, list membership kept), optionally reset C (solver\'s choice), cancel P again (true; C cancelled again with no new child bound in between), reset both, cancel G (whole subtree, not I). SEQ 2 = cancel G, reset P (only P changes), a context bound under the still-cancelled G afterwards is cancelled, cancel G false / cancel P true.',
+       bounds={'threads': 1, 'steps': 'fixed sequences of 6-8 API calls', 'symbolic': 'whether the child is reset too', 'contexts': 'default, G<-P<-C, S under G, I or late child D', 'thread_lists': 2}),
+  dict(name='reset_reuse_2t', unit='rb', defines={'ROUNDS': 1, 'MODE': 7}, scenarios_quick=[sc(REG_FIRST=0, BIND_T=1, ORDER=0)],
+       scenarios=[sc(REG_FIRST=0, BIND_T=1, ORDER=1), sc(REG_FIRST=1, BIND_T=1, ORDER=1), sc(REG_FIRST=0, BIND_T=1, ORDER=0), sc(REG_FIRST=1, BIND_T=1, ORDER=0)],
+       desc='P was cancelled with child C bound beneath it; thread a: P.reset(); P.cancel_group_execution() || thread b: bind_to(new child D under P). At quiescence the second cancel returned true and P, C, D are cancelled, G, S, I untouched, D bound and registered.' + SCHED,
+       bounds=bnd(contexts='default, G<-P<-{C,D}, S under G, isolated I'), **COMMON),
   dict(name='bind_vs_bind', unit='bb', defines={'ROUNDS': 2, 'MODE': 4}, scenarios=[sc(REG_FIRST=0)],
        desc='two threads call bind_to on the same fresh context C (created->locked CAS, spin_wait_while_eq on the loser): both return only when C is bound; C is registered in exactly one list, my_context_list names it, list sizes add up.',
        bounds=bnd(free_rounds=2), **COMMON),
@@ -74,14 +84,14 @@ HARNESSES = [
        bounds=bnd(threads=3, completion_slices=6), **dict(COMMON, timeout=3600)),
 ]
 MANIFEST = dict(
-  level_text='Bounded model checking of the real context-binding and cancellation code (task_group_context_impl::bind_to/bind_to_impl/register_with/cancel_group_execution/propagate_task_group_state/destroy, cancellation_disseminator and thread_data propagation, context_list, intrusive_list, d1::mutex/spin_mutex, the global epoch and propagation mutex): for 2-3 threads on a context tree built by the real constructors and bind_to, the SAT solver decides over all bounded schedules that at quiescence exactly the descendants of the cancelled context(s) are cancelled - including a child being bound or destroyed during the propagation -, that concurrent cancel calls on one context have exactly one winner, and that concurrent bind_to calls register the context once.',
+  level_text='Bounded model checking of the real context-binding and cancellation code (task_group_context_impl::bind_to/bind_to_impl/register_with/cancel_group_execution/propagate_task_group_state/destroy, cancellation_disseminator and thread_data propagation, context_list, intrusive_list, d1::mutex/spin_mutex, the global epoch and propagation mutex): for 2-3 threads on a context tree built by the real constructors and bind_to, the SAT solver decides over all bounded schedules that at quiescence exactly the descendants of the cancelled context(s) are cancelled - including a child being bound or destroyed during the propagation -, that concurrent cancel calls on one context have exactly one winner, that concurrent bind_to calls register the context once, and (sequential API histories plus one 2-thread race) that a reset context can be reused: reset clears exactly that context\'s flag and exception and a later cancel still reaches the children that stayed bound.',
   level_note='Bounds per harness in evidence: 2 thread lists, tree depth 3 (G<-P<-C plus sibling S, isolated I), 1-2 free scheduling rounds + completion slices, loop unroll 2 (exact for this world), SC (one x86-TSO query on the children-hint hand-shake in the thorough tier). d1::mutex sleeping path, TLS lookup, allocation and FPU-state capture are contract stubs. Trusted: clang-14 IR, tools/ir2c.py, cbmc.',
 )
 OUTSIDE = [
   'context trees deeper than 3 levels, more than 2 per-thread context lists, more than one context being bound at a time, more than 3 threads',
   'schedules needing more context switches than the stated rounds allow (quick: x* y* X Y X per pair of threads)',
   'weak memory beyond the one x86-TSO query (hint_dekker_tso, thorough tier); ARM/POWER reorderings',
-  'task_group::wait/run_and_wait resetting their own context, reset() racing with cancellation (documented as not concurrency-safe)',
+  'task_group::wait/run_and_wait themselves (they call the same task_group_context::reset that reset_reuse exercises); reset() racing with a cancel of the SAME context from another thread (documented as not concurrency-safe); reset of a context while its ancestor\'s propagation is in flight',
   'how governor/arena/threading_control objects are created and looked up (the real forwarding chain threading_control -> impl -> disseminator is used, the objects are placed by the wrapper)',
   'thread_data registration/unregistration and orphaned context lists during a propagation; exception-triggered cancellation',
 ]
@@ -90,6 +100,7 @@ STUBS = [
   'pthread_getspecific (governor::theTLS): the thread_data of the calling model thread; governor::init_external_thread: must not be reached',
   'd1::waitable_atomic<bool>::wait (cut; d1::mutex slow path = timed spin + wait_on_address): caller sleeps while the flag still has the old value, re-evaluated whenever the thread is scheduled (wake-up delivery is C02\'s subject); notify_by_address_one: no-op',
   'd1::cpu_ctl_env::get_env (cut; inline asm reading MXCSR/x87 CW): no-op',
+  'r1::deallocate_memory (tbb_exception_ptr::destroy in reset): records the pointer (ghost), frees nothing',
   'hint_dekker_* only: thread_data::propagate_task_group_state cut, the stub records the call and such executions are excluded from the query',
 ]
 ASSUMPTIONS = [
